@@ -6,6 +6,7 @@ import (
 	"encoding/json"
 	"fmt"
 	"math"
+	"runtime"
 	"sort"
 	"strings"
 	"time"
@@ -192,3 +193,9 @@ type jsonRaw = json.RawMessage
 func coinsEq(a, b sdk.Coins) bool {
 	return sdk.NewCoins(a...).String() == sdk.NewCoins(b...).String()
 }
+
+func errGenesis(pi *kernel.PanicInfo) error {
+	return fmt.Errorf("generated genesis rejected by InitChain: %s", pi.Value)
+}
+
+func runtimeStack(buf []byte) int { return runtime.Stack(buf, false) }
